@@ -35,7 +35,7 @@ impl Method for WMA {
 		&&& self.numerator@ == wsum(self.window.view())
 	}
 	open spec fn rejects(parameters: PeriodType) -> bool { parameters == 0 }
-	open spec fn new_req(parameters: PeriodType, initial_value: &ValueType) -> bool { parameters < PeriodType::MAX && (parameters as int) <= 0xffff_ffff }
+	open spec fn new_req(parameters: PeriodType, initial_value: &ValueType) -> bool { (parameters as int) <= 0xffff_ffff }
 	open spec fn fresh(parameters: PeriodType, initial_value: &ValueType, s: &Self) -> bool {
 		s.window.view() =~= konst(parameters as nat, *initial_value)
 	}
